@@ -430,3 +430,18 @@ contract('schema.BaseParser.end_multikey',
                   Clause("cast(old(self._stack)[-1], 'info.MultiKeyInfo')._finished", carries='C10', label='finished')],
          raises=[SCHEMA_ERROR, Raise('ZConfig.DataConversionError', carries='C10',
                                      label='default-key-refused-by-the-key-type (known finding KF-C10-default-key)')])
+
+# ---- ComponentParser overrides (session 4) --------------------------------------------------------------------------
+# The four element handlers a component document overrides: each is the BaseParser handler behind a guard that the
+# element is not at top level.  Each override is verified against the SAME contract as the handler it overrides
+# (behavioural subtyping: a component document obeys every rule a schema document obeys), the BaseParser handler
+# being used through its own discharged contract at the static call `BaseParser.start_xxx(self, attrs)`.
+import copy as _copy
+contract('schema.ComponentParser._check_not_toplevel', params={'what': 'str'}, pure=True,
+         ensures=[Clause('len(self._stack) > 0', carries='C10', label='inside-a-type-element')],
+         raises=[Raise('ZConfig.SchemaError+', when='len(self._stack) == 0', carries='C10',
+                       label='top-level-item-in-a-component')])
+for _n in ('start_key', 'start_multikey', 'start_section', 'start_multisection'):
+    _c = _copy.copy(REGISTRY['schema.BaseParser.' + _n])
+    _c.qualname = 'schema.ComponentParser.' + _n
+    REGISTRY[_c.qualname] = _c
